@@ -233,7 +233,7 @@ int main(int argc, char **argv) {
     build_families();
     if (mc_replay) return do_replay();
     if (corpus_load()) return 2;
-    { static const int PH[] = { CP_LONGIDN, CP_ALTDOT, CP_LABELLEN, CP_WHOLEDOM };
+    { static const int PH[] = { CP_LONGIDN, CP_ALTDOT, CP_LABELLEN, CP_WHOLEDOM, CP_DEPTH };
       for (unsigned i = 0; i < sizeof PH / sizeof PH[0]; i++) { L5PH = PH[i]; char nm5[80]; snprintf(nm5, sizeof nm5, "corpus: %.60s", corpus_name(L5PH)); mc_parallel(nm5, corpus_shards(L5PH), l5_shard, NULL); } }
     mc_parallel("scalars: every Unicode scalar value U+0080..U+10FFFF as a one-character label and after a letter, before .com", 0x110000 / 0x1000, scalar_shard, NULL);
     mc_parallel("pairs: every ordered pair of long domains sharing a >= 255-byte prefix, second one right after the first", 48, pair_shard, NULL);
